@@ -26,6 +26,10 @@ SUBMOD_SRC = '''
 def fn(x=0, y=0):
   return ('fn5', x, y)
 '''
+SIBMOD_SRC = '''
+def fn(x=0, y=0):
+  return ('fn6', x, y)
+'''
 VEND_SRC = '''
 def vfn(x=0):
   return ('vfn', x)
@@ -44,8 +48,12 @@ class Case:
     self.root = tempfile.mkdtemp(prefix='ginverif_dyn_')
     p = os.path.join(self.root, self.pk)
     os.makedirs(os.path.join(p, 'sub'))
+    os.makedirs(os.path.join(p, 'sib'))
     open(os.path.join(p, '__init__.py'), 'w').close()
     open(os.path.join(p, 'sub', '__init__.py'), 'w').close()
+    open(os.path.join(p, 'sib', '__init__.py'), 'w').close()
+    with open(os.path.join(p, 'sib', 'mod.py'), 'w') as fh:       # a sibling package with a module of the same leaf name
+      fh.write(SIBMOD_SRC)
     with open(os.path.join(p, 'mod.py'), 'w') as fh:
       fh.write(MOD_SRC)
     with open(os.path.join(p, 'sub', 'mod.py'), 'w') as fh:
@@ -105,6 +113,9 @@ class Case:
     m5 = sys.modules.get(self.pk + '.sub.mod')
     if m5 is not None:
       out['fn5'] = m5.fn
+    m6 = sys.modules.get(self.pk + '.sib.mod')
+    if m6 is not None:
+      out['fn6'] = m6.fn
     return out
 
   def bindings(self):
@@ -146,6 +157,9 @@ class Case:
     skip = {'false': False, 'true': True}.get(sk['mode'])
     if skip is None:
       skip = ['.'.join(self.name(c) for c in n) for n in sk['names']]
+    if case.get('prev'):
+      # an earlier file of the same process: what it registered, bound and imported stays behind
+      gin.parse_config(self.text(case['prev']))
     try:
       gin.parse_config(self.text(case['doc']), skip_unknown=skip)
       obs['status'] = 'ok'
